@@ -55,6 +55,31 @@ def gen_gene(r, name="GEN", pseudogene=None, n_exons=None, n_alleles=None, fusio
     gname, pname = name, name + "P"
     mappings = {"hg19": ["20", S19 + 1, S19 + L + 1, "+", f"M{L}"],
                 "hg38": ["20", S38 + 1, S38 + L + 1, "+" if same_strand else "-", f"M{L}"]}
+    if cigar_indels:
+        # an insertion or deletion between RefSeq and genome inside the last (in genome order) region
+        for build, regs, S in (("hg19", regions19, S19), ("hg38", regions38, S38)):
+            if r.random() < 0.7:
+                best = None
+                for n_, co in regs.items():
+                    for k_ in range(0, len(co), 2):
+                        if best is None or co[k_ + 1] > regs[best[0]][best[1] + 1]:
+                            best = (n_, k_)
+                n_, k_ = best
+                a_, b_ = regs[n_][k_], regs[n_][k_ + 1]
+                if b_ - a_ >= 8:
+                    x = r.randint(a_ + 3, b_ - 4)          # 1-based genome coordinate where the gap starts
+                    before = x - (S + 1)
+                    if r.random() < 0.5:
+                        dd = r.randint(1, 3)
+                        regs[n_][k_ + 1] = b_ + dd
+                        mappings[build][2] += dd
+                        mappings[build][4] = f"M{before} D{dd} M{L - before}"
+                    else:
+                        ii = r.randint(1, 3)
+                        if L - before - ii > 2:
+                            regs[n_][k_ + 1] = b_ - ii
+                            mappings[build][2] -= ii
+                            mappings[build][4] = f"M{before} I{ii} M{L - before - ii}"
 
     # ---- variants -------------------------------------------------------------------------
     gene_lo, gene_hi = off_gene + 1, off_gene + G  # 1-based inclusive refseq range of the gene
